@@ -31,12 +31,13 @@ RULE += (' Also: adapter sources (aclose via __getattr__); tools as in C07 inclu
 RULE += (' Also: the multi-input tools of C07 (handle at every position; ValueError of zip strict compared with the stdlib on the shared iterator).')
 RULE += (' Also: a tool polling a stale group of a groupby over the shared handle.')
 RULE += (' Also: a tool running a groupby whose key fails once over the shared handle.')
+RULE += (' Also: athrow as a signalling channel through scoped and borrowed handles against gen.throw on a shared generator; generator-like class sources without aclose.')
 ASSUMPTIONS = ["iterables without aclose get a neutral context: only the in-block sequence semantics are checked for them",
                "tool laziness is C05's concern; the stdlib twin predicts how many items each tool takes"]
 EXHAUSTIVE_SUBSPACES = 'nested scopes of depth 2..3 left in every order x 3 underlying kinds x 0..2 items taken'
 EXHAUSTIVE = {"quick": False, "thorough": False}
 N_PROG = {"quick": 4000, "thorough": 200000}
-FLAVS = ["async_gen", "async_class", "async_class", "async_class_bare", "sync_iter", "slowclose", "failclose", "async_class_proxy", "async_iterable", "sync_iterable"]
+FLAVS = ["async_gen", "async_class", "async_class", "async_class_bare", "async_class_bare_full", "sync_iter", "slowclose", "failclose", "async_class_proxy", "async_iterable", "sync_iterable"]
 CLASS_CLOSABLE = ("async_class", "async_class_proxy", "async_iterable")
 
 
@@ -112,6 +113,15 @@ def cases(tier, seed, shard, nshards):
                 k += 1
                 if k % nshards == shard:
                     yield {"kind": "borrowed", "flav": flav, "taken": taken, "how": how, "keys": [0, 1, 2, 3, 0, 1]}
+    plans = [["next", "signal", "next"], ["next", "next", "signal", "next", "signal", "next"], ["signal", "next"],
+             ["next", "signal", "signal", "next", "next"]]
+    for via in ("scope", "borrow"):
+        for depth in (1, 2, 3):
+            for susp in (0, 1):
+                for plan in plans:
+                    k += 1
+                    if k % nshards == shard:
+                        yield {"kind": "athrow_signal", "via": via, "depth": depth, "susp": susp, "plan": plan}
     for depth in (2, 3):
         for order in _it.permutations(range(depth)):
             for flav in ("async_class", "async_gen", "slowclose", "async_class_full", "async_class_proxy"):
@@ -434,7 +444,100 @@ def run_borrowed(case, stats):
     return {"violations": viols, "evals": 1, "sigs": [("borrowed", str(case))]}
 
 
+class Signal(Exception):
+    """Thrown INTO an iterator by its consumer as a message (``athrow`` as a signalling channel); the iterator handles it."""
+
+
+def run_athrow_signal(case, stats):
+    """The consumer talks to the underlying generator through ``handle.athrow(Signal())``; the generator handles the
+    signal at its ``yield`` and carries on.  Inside the block the handle is the iterator: the signal reaches it, its answer
+    comes back, iteration continues - exactly as ``gen.throw`` on a shared synchronous generator - and after the block the
+    owner gets the rest."""
+    CTX.reset()
+    susp = case["susp"]
+
+    async def agen(log):
+        i = 0
+        while i < 7:
+            try:
+                if susp:
+                    await Suspend(("src", i), 1)
+                yield ("item", i)
+                i += 1
+            except Signal as sig:
+                log.append(("signal-received", i, sig.args))
+                yield ("ack", i)
+
+    def sgen(log):
+        i = 0
+        while i < 7:
+            try:
+                yield ("item", i)
+                i += 1
+            except Signal as sig:
+                log.append(("signal-received", i, sig.args))
+                yield ("ack", i)
+
+    plan = case["plan"]  # e.g. ["next", "next", "signal", "next", "signal", "next"]
+    log_s, out_s = [], []
+    g = sgen(log_s)
+    for n, op in enumerate(plan):
+        try:
+            out_s.append(next(g) if op == "next" else g.throw(Signal(n)))
+        except StopIteration:
+            out_s.append("STOP")
+        except Signal:
+            out_s.append("signal-came-back")  # (a signal the generator did not handle: it ends the generator)
+    rest_s = list(g)
+    log_a, out_a, rest_a = [], [], []
+    under = agen(log_a)
+
+    async def use(handle):
+        for n, op in enumerate(plan):
+            try:
+                out_a.append(await (handle.__anext__() if op == "next" else handle.athrow(Signal(n))))
+            except StopAsyncIteration:
+                out_a.append("STOP")
+            except Signal:
+                out_a.append("signal-came-back")
+
+    async def main():
+        if case["via"] == "borrow":
+            handle = A.borrow(under)
+            if case["depth"] > 1:
+                handle = A.borrow(handle)
+            await use(handle)
+            await handle.aclose()
+        else:
+            async def nest(it, depth):
+                async with A.scoped_iter(it) as h:
+                    if depth > 1:
+                        await nest(h, depth - 1)
+                    else:
+                        await use(h)
+            # (a scope over the raw generator closes it at exit: the owner lends a borrowed handle)
+            await nest(A.borrow(under), case["depth"])
+        async for x in under:
+            rest_a.append(x)
+
+    viols = []
+    try:
+        drive(main())
+    except BaseException as exc:  # noqa: BLE001
+        viols.append({"key": "scoped_iter/athrow-signal-raised", "msg": f"athrow signalling {case}: {exc!r}"})
+    stats["athrow_signal_runs"] += 1
+    if not viols and (out_a, log_a, rest_a) != (out_s, log_s, rest_s):
+        viols.append({"key": "scoped_iter/athrow-does-not-reach-the-iterator",
+                      "msg": f"athrow signalling {case}: handle gave {out_a}, generator saw {log_a}, owner then got {rest_a}; a "
+                             f"shared synchronous generator gives {out_s}, sees {log_s}, leaves {rest_s}"[:900]})
+    if CTX.foreign:
+        viols.append({"key": "scoped_iter/foreign-suspension", "msg": CTX.foreign[0]})
+    return {"violations": viols, "evals": 1, "sigs": [("athrow-signal", str(case))]}
+
+
 def run_case(case, stats: Counter):
+    if case.get("kind") == "athrow_signal":
+        return run_athrow_signal(case, stats)
     if case.get("kind") == "borrowed":
         return run_borrowed(case, stats)
     if case.get("kind") == "manual":
